@@ -153,7 +153,8 @@ def _create_default_registry() -> OperatorRegistry:
     ops.register(tokens.MINUS, "({0} - {1})")
     ops.register(tokens.MULT, "({0} * {1})")
     ops.register(tokens.DIV, "vtl_div({0}, {1})")
-    ops.register(tokens.MOD, "({0} % {1})")
+    # VTL: mod(x, 0) = x (DuckDB yields NULL / nan for a zero divisor); NULL operands still give NULL.
+    ops.register(tokens.MOD, "CASE WHEN {1} = 0 THEN {0} ELSE ({0} % {1}) END", arity=2)
     # Comparison
     ops.register(tokens.EQ, "({0} = {1})")
     ops.register(tokens.NEQ, "({0} <> {1})")
